@@ -68,8 +68,10 @@ CHECKS = {
        "requests at most one packet, which the receiver resolves to the topic the application asked for, with an alias in 1..=Topic Alias "
        "Maximum, and a binding enters the sender's table only with the packet that teaches it to the receiver; the table's insert_or_update "
        "keeps its representation invariant (both maps consistent) for every table; fresh / closed objects and new tables satisfy the cover. "
-       "PARTIAL (C13_partial): the lift to whole histories (the other calls leave the table alone and send no aliased PUBLISH) is decided by "
-       "the monitor mon_c13 (independent receiver-side alias table replayed over the sent packets) and the correspondence.",
+       "OVER HISTORIES (C13_every_history_resolvable, by a walk through every function of the model): every call keeps the cover and the "
+       "shape of the store (stored PUBLISH: full topic, no alias) and requests only PUBLISH packets the receiver can resolve when they arrive, "
+       "retransmissions included; the receiver's table is dropped with the sender's at notify_closed. The implementation is judged by the "
+       "monitor mon_c13 (independent receiver-side alias table replayed over the sent packets) and tied to the model by the correspondence.",
   ref="DESIGN.md §3 C13",
   note=CONN_NOTE,
   technique="Coq proofs (receive side; send side against a ghost receiver; alias-table invariant) + independent receiver-table monitor + differential correspondence"),
